@@ -472,6 +472,18 @@ Definition scan_ranges (s : rowsel) (first_rows : list nat) : list nat :=
   let sels := selectors_of s in
   scan_go (length sels + length first_rows + 1) sels (combine (seq 0 (length first_rows)) first_rows) 0 false.
 
+(* S: the page holding row [r], for pages given as (index, first_row_index) in increasing order:
+   the last page whose first row is <= r *)
+Fixpoint page_of (pages : list (nat * nat)) (r : nat) : option nat :=
+  match pages with
+  | [] => None
+  | (pi, _) :: rest =>
+      match rest with
+      | (_, nfirst) :: _ => if r <? nfirst then Some pi else page_of rest r
+      | [] => Some pi
+      end
+  end.
+
 (* S: page i holds rows [first_i, first_{i+1}) (the last page: everything from first_last on);
    the pages holding at least one selected row *)
 Definition any_in (l : list bool) (lo hi : nat) : bool := existsb (fun b => b) (firstn (hi - lo) (skipn lo l)).
